@@ -50,6 +50,25 @@ CHECKS = {
         "runtime oracle on return values + deep-snapshot monitor",
         "4/C14",
     ),
+    "C11": (
+        "exploration",
+        "Bounded-exhaustive histories (constructor x assignment sequences over a small value alphabet: depth 2 full / 3 core in "
+        "quick, depth 3 full / 4 core in thorough, plus random depth 5-10) are executed on real IOData objects; after every step a "
+        "monitor reads the public observables twice in two orders and evaluates I1-I6 (charge = core - nelec, read-back, default "
+        "core charges, orbitals-derived values, natom agreement with TypeError + unchanged observables, read idempotence); every "
+        "history is replayed without intermediate reads and outcomes/final observables compared.",
+        "invariant monitor over exhaustively enumerated operation histories on the real objects",
+        "4/C11",
+    ),
+    "C12": (
+        "exploration",
+        "Bounded-exhaustive assignment histories on real MolecularOrbitals objects for every kind x orbital counts 0..6 x initial "
+        "occupation pattern with an invariant monitor after each step (alpha+beta sums, documented alpha/beta rules, nelec, "
+        "spinpol, slices, read-back, other spin unchanged, generalized refusals, rejection of wrong lengths / contradictory kinds); "
+        "Shell constructions for l 0..9, kinds c/p/illegal and the full shape-mismatch matrix.",
+        "invariant monitor over exhaustively enumerated operation histories on the real objects",
+        "4/C12",
+    ),
 }
 
 NOT_YET = "check not built yet (work in progress; see DESIGN.md section 5b)"
